@@ -124,13 +124,15 @@ fn c14_mulassign_poly0() {
 // The fold over the reversed coefficients is the Horner recursion h(i) = h(i+1).mul_add(x, c[i]), h(n-1) = c[n-1];
 // empty = 0.0.  x ranges over a concrete set (BOUNDED); coefficients are symbolic.
 const XS: [f64; 4] = [0.0, 1.0, -1.0, 2.0];
-fn c01_polyn<const N: usize>() {
+fn c01_polyn<const N: usize>() { c01_polyn_xs::<N>(XS.len()) }
+/// the first `nx` arguments of XS = [0, 1, -1, 2]: with nx = 3 no product needs a real multiplier (long vectors stay cheap)
+fn c01_polyn_xs<const N: usize>(nx: usize) {
     let mut c = [0.0f64; N];
     let mut i = 0;
     while i < N { c[i] = small_any(); i += 1; }
     let p = PolyN(c.to_vec());
     let mut xi = 0;
-    while xi < XS.len() {
+    while xi < nx {
         let x = XS[xi]; // concrete in every unwound iteration
         let got = p.evaluate(x);
         if N == 0 {
@@ -155,9 +157,20 @@ fn c01_polyn<const N: usize>() {
 #[kani::proof] #[kani::unwind(15)] fn c01_polyn_4() { c01_polyn::<4>() }
 #[kani::proof] #[kani::unwind(15)] fn c01_polyn_5() { c01_polyn::<5>() }
 #[kani::proof] #[kani::unwind(15)] fn c01_polyn_6() { c01_polyn::<6>() }
+#[kani::proof] #[kani::unwind(15)] fn c01_polyn_7() { c01_polyn::<7>() }
 #[kani::proof] #[kani::unwind(15)] fn c01_polyn_8() { c01_polyn::<8>() }
+#[kani::proof] #[kani::unwind(15)] fn c01_polyn_11() { c01_polyn::<11>() }
 #[kani::proof] #[kani::unwind(15)] fn c01_polyn_10() { c01_polyn::<10>() }
 #[kani::proof] #[kani::unwind(15)] fn c01_polyn_12() { c01_polyn::<12>() }
+// all lengths up to 12 with x in {0, 1, -1}
+#[kani::proof] #[kani::unwind(15)] fn c01_polyn_pm1_5() { c01_polyn_xs::<5>(3) }
+#[kani::proof] #[kani::unwind(15)] fn c01_polyn_pm1_6() { c01_polyn_xs::<6>(3) }
+#[kani::proof] #[kani::unwind(15)] fn c01_polyn_pm1_7() { c01_polyn_xs::<7>(3) }
+#[kani::proof] #[kani::unwind(15)] fn c01_polyn_pm1_8() { c01_polyn_xs::<8>(3) }
+#[kani::proof] #[kani::unwind(15)] fn c01_polyn_pm1_9() { c01_polyn_xs::<9>(3) }
+#[kani::proof] #[kani::unwind(15)] fn c01_polyn_pm1_10() { c01_polyn_xs::<10>(3) }
+#[kani::proof] #[kani::unwind(15)] fn c01_polyn_pm1_11() { c01_polyn_xs::<11>(3) }
+#[kani::proof] #[kani::unwind(15)] fn c01_polyn_pm1_12() { c01_polyn_xs::<12>(3) }
 
 // ------------------------------------------------------------------------------------------- C17: approximate equality
 // abs_diff_eq / relative_eq of a polynomial hold exactly when they hold for every pair of corresponding coefficients.
